@@ -16,6 +16,7 @@ func checkC16(c *Ctx, r *Report) {
 	ruleG2(c, r, scope, "G2")
 	r.Floor("G2", 10)
 	ruleG3(c, r, scope, 12)
+	ruleG3Lin(c, r, scope)
 	ruleG4(c, r, scope, map[string]func(*Ctx, *Report, string) bool{"sei.PicTimingAvcSEI.String:(PicTimingAvcSEI).Clocks[0]": invAppendedAtLeastOnce("sei", "PicTimingAvcSEI", "Clocks", 1),
 		"sei.UnregisteredSEI.String:(UnregisteredSEI).payload[16:]": invCallersCheckLen("sei", "NewUnregisteredSEI", "UnregisteredSEI", "payload", 16)})
 	ruleG8(c, r, scope, map[string]func(*Ctx, *Report, string) bool{"hevc.parseShortTermRPS:(SPS).ShortTermRefPicSets[(byte)]": invRPSIndex})
